@@ -72,6 +72,28 @@ type InlineStruct struct {
 	Sub Scalars `yaml:",inline"`
 }
 
+// embedded structs tagged inline, of an exported and of an unexported type: their exported
+// fields are promoted and take their keys from the enclosing mapping (yaml.v3 does the same)
+type Base struct {
+	Name  string `yaml:"name"`
+	Count int    `yaml:"count"`
+}
+
+type base struct {
+	Name  string `yaml:"name"`
+	Count int    `yaml:"count"`
+}
+
+type EmbeddedExported struct {
+	Base  `yaml:",inline"`
+	Label string `yaml:"label"`
+}
+
+type EmbeddedUnexported struct {
+	base  `yaml:",inline"`
+	Label string `yaml:"label"`
+}
+
 type family struct {
 	name      string
 	typ       reflect.Type
@@ -89,6 +111,8 @@ var families = []family{
 		"deep": map[string]any{"l": []any{"dl"}, "unk": 1}, "extra": 1, "": "empty"}, true},
 	{"Aliased", reflect.TypeOf(Aliased{}), map[string]any{"x": "x", "ex": "ex", "eks": "eks", "y": 1, "why": 2, "z": "z", "w": []any{"w"}, "double-u": []any{"dw"}, "": "empty", "extra": "e"}, false},
 	{"NoInline", reflect.TypeOf(NoInline{}), map[string]any{"x": "x", "ex": "ex", "z": "z", "": "empty", "extra": "e"}, false},
+	{"EmbeddedExported", reflect.TypeOf(EmbeddedExported{}), map[string]any{"name": "llama", "count": 3, "label": "drama", "extra": "e", "base": "b"}, true},
+	{"EmbeddedUnexported", reflect.TypeOf(EmbeddedUnexported{}), map[string]any{"name": "llama", "count": 3, "label": "drama", "extra": "e", "base": "b"}, true},
 	{"InlineStruct", reflect.TypeOf(InlineStruct{}), map[string]any{"top": "t", "a": "str", "n": 7, "plain": "p", "extra": "e", "": "empty"}, false},
 }
 
@@ -102,8 +126,17 @@ type fieldPlan struct {
 
 func plan(t reflect.Type) (fields []fieldPlan, inline []int) {
 	for _, f := range reflect.VisibleFields(t) {
-		if !f.IsExported() || len(f.Index) != 1 {
+		if len(f.Index) == 2 {
+			// promoted from an embedded struct tagged inline: an ordinary field of the enclosing mapping
+			if parent := t.Field(f.Index[0]); !(parent.Anonymous && parent.Tag.Get("yaml") == ",inline") {
+				continue
+			}
+		}
+		if !f.IsExported() || len(f.Index) > 2 {
 			continue
+		}
+		if f.Anonymous && f.Type.Kind() == reflect.Struct {
+			continue // the embedded struct itself: reached through its promoted fields
 		}
 		tag := f.Tag.Get("yaml")
 		if tag == "-" {
@@ -127,19 +160,19 @@ func plan(t reflect.Type) (fields []fieldPlan, inline []int) {
 }
 
 // consume returns, for a document key set, field index -> consumed key, and the leftover keys.
-func consume(t reflect.Type, doc map[string]any) (map[int]string, []string) {
+func consume(t reflect.Type, doc map[string]any) (map[string]string, []string) {
 	fields, _ := plan(t)
 	used := map[string]bool{}
-	by := map[int]string{}
+	by := map[string]string{}
 	for _, f := range fields {
 		if _, ok := doc[f.primary]; ok {
-			by[f.index[0]] = f.primary
+			by[fmt.Sprint(f.index)] = f.primary
 			used[f.primary] = true
 			continue
 		}
 		for _, a := range f.aliases {
 			if _, ok := doc[a]; ok {
-				by[f.index[0]] = a
+				by[fmt.Sprint(f.index)] = a
 				used[a] = true
 				break
 			}
@@ -262,7 +295,7 @@ func TestC16(t *testing.T) {
 			fields, inline := plan(fam.typ)
 			for _, f := range fields {
 				got := dst.Elem().FieldByIndex(f.index)
-				key, consumed := by[f.index[0]]
+				key, consumed := by[fmt.Sprint(f.index)]
 				if !consumed {
 					if !reflect.DeepEqual(got.Interface(), before.Elem().FieldByIndex(f.index).Interface()) {
 						fail("%s %v: field %s changed to %v although none of its keys is present", fam.name, doc, fam.typ.FieldByIndex(f.index).Name, got.Interface())
@@ -311,7 +344,7 @@ func TestC16(t *testing.T) {
 					cases++
 					byN, _ := consume(fam.typ, nd)
 					for _, f := range fields {
-						if _, ok := byN[f.index[0]]; ok {
+						if _, ok := byN[fmt.Sprint(f.index)]; ok {
 							if got := z.Elem().FieldByIndex(f.index); !got.IsZero() {
 								fail("%s: null for field %s left %v, want the zero value", fam.name, fam.typ.FieldByIndex(f.index).Name, got.Interface())
 							}
